@@ -39,3 +39,9 @@ func VerifSmokeConcrete() {
 		vnd.Fail("wrong href")
 	}
 }
+
+func init() {
+	verifHarnesses["VerifSmokeAlpha"] = VerifSmokeAlpha
+	verifHarnesses["VerifSmokeParse"] = VerifSmokeParse
+	verifHarnesses["VerifSmokeConcrete"] = VerifSmokeConcrete
+}
